@@ -176,7 +176,7 @@ func TestWorker(t *testing.T) {
 		t.Skip("worker entry point; driven by /verif/check")
 	}
 	runtime.GOMAXPROCS(1)
-	debug.SetGCPercent(400)
+	debug.SetGCPercent(100)
 	curT = t
 	if err := selfTestLatchPeek(); err != nil {
 		fmt.Fprintln(os.Stderr, "SELFTEST-FAIL:", err)
@@ -207,7 +207,8 @@ func TestWorker(t *testing.T) {
 	from, to := envInt("COLSIM_FROM", 0), envInt("COLSIM_TO", 1)
 	deadline := time.Unix(int64(envInt("COLSIM_DEADLINE", 1<<40)), 0)
 	replayDir := os.Getenv("COLSIM_REPLAYDIR")
-	maxViol := envInt("COLSIM_MAXVIOL", 4)
+	maxViol := envInt("COLSIM_MAXVIOL", 2)
+	minBudget := time.Duration(envInt("COLSIM_MINBUDGET", 30)) * time.Second
 	start := time.Now()
 	res := &WorkerResult{Prop: prop, Faults: map[string]int{}, Probes: map[string]int{}, Hooks: map[string]int{}, Inconclusive: map[string]int{}}
 	ilv, ends, distinct := map[uint64]bool{}, map[uint64]bool{}, map[uint64]bool{}
@@ -223,6 +224,9 @@ func TestWorker(t *testing.T) {
 			break
 		}
 		fmt.Fprintf(os.Stderr, "HB %d\n", run)
+		// a single-P process allocating ~10 MB per collection outruns the concurrent collector:
+		// collect between runs (the live heap is tiny at this point)
+		runtime.GC()
 		cs := def.Gen(seed, run, tier)
 		w := execCase(def, cs)
 		res.Runs++
@@ -296,7 +300,7 @@ func TestWorker(t *testing.T) {
 				}
 				min := cs
 				if !def.NoMinimise && vi == 0 {
-					min = minimise(def, cs, 45*time.Second)
+					min = minimise(def, cs, minBudget)
 				}
 				rep.Replay = fmt.Sprintf("%s/%s-%s-%d-%d.json", replayDir, prop, sanitize(v.Sig), seed, run)
 				rep.Detail = min.Expect.Detail
